@@ -126,6 +126,14 @@ def analyse(text):
     return {'cls': cls, 'offs': [(a, b, c, d) for (a, b, c, d, _) in offs], 'tag': tag, 'simple': simple}
 
 
+def frag_key(info, pr):
+    if pr[0] == 'digits_before_paren':
+        return 'C19.listed.digits_before_paren'
+    if pr[0] == 'fragments_incomplete' and info['tag'] == 'newline_in_args':
+        return 'C19.missed.newline_in_args'     # the call whose argument list holds the line break is the one left out
+    return f'C19.{pr[0]}'
+
+
 def listed_key(info, frags):
     if isinstance(frags, (list, tuple)) and frags and all(isinstance(f, str) and re.match(r'\d+\(', f) for f in frags):
         return 'C19.listed.digits_before_paren'
@@ -352,8 +360,7 @@ def judge(spec, cells, outcome, mode, translatable):
             else:
                 pr = fragments_problem(c['text'], c['info'], reported[pos][1])
                 if pr is not None:
-                    key = 'C19.listed.digits_before_paren' if pr[0] == 'digits_before_paren' else f'C19.{pr[0]}'
-                    fail(key, f"{desc}: '{c['title']}'!{c['a1']} = {c['text'][:80]!r}: {pr[1]}", keep=[pos], check='fragments')
+                    fail(frag_key(c['info'], pr), f"{desc}: '{c['title']}'!{c['a1']} = {c['text'][:80]!r}: {pr[1]}", keep=[pos], check='fragments')
         elif cls in ('I_upper', 'I_none'):
             cnt['clean'] += 1
             if pos in reported:
@@ -445,8 +452,8 @@ TITLES = ['Data', 'Sh 2', "It's", 'Лист3', 'A1', 'S', 'S1', 'eval(1)', 'X' *
 SAFE_TITLES = ['Data', 'Sh 2', 'Sheet3', 'S', 'S1', 'X' * 31]
 B_COLS = [1, 2, 24, 26, 27, 28, 52, 53, 256, 257, 701, 702, 703, 704, 16383, 16384]
 B_ROWS = [1, 2, 9, 10, 11, 99, 100, 101, 102, 999, 1000, 1001, 1002, 65536, 65537, 1048575, 1048576]
-N_MULTI = {'quick': 90, 'thorough': 1200}
-N_INNOCENT = {'quick': 50, 'thorough': 800}
+N_MULTI = {'quick': 60, 'thorough': 700}
+N_INNOCENT = {'quick': 30, 'thorough': 500}
 DATA = [[25, 50, 'value', 1], [25, 51, 'value', 2], [25, 52, 'value', 3]]
 
 
@@ -676,7 +683,7 @@ def _helper_chunk(arg):
                     else:
                         pr = fragments_problem(text, info, got)
                         if pr:
-                            key = 'C19.listed.digits_before_paren' if pr[0] == 'digits_before_paren' else f'C19.{pr[0]}'
+                            key = frag_key(info, pr)
                             what = f'_get_suspicious_constructions({text!r}) -> {got!r}: {pr[1]}'
                 elif got:
                     key, what = listed_key(info, got), f'_get_suspicious_constructions({text!r}) -> {got!r}, expected [] ' \
@@ -692,7 +699,7 @@ def helper_sweep(tier):
     if not hasattr(Excel, '_get_suspicious_constructions'):
         return {'name': 'C19.monitor.fragment_rule', 'bound': 'Excel._get_suspicious_constructions is absent', 'rule': '-',
                 'exhaustive': False, 'evaluations': 0, 'distinct_nontrivial': 0, 'failures': [], 'samples': [], 'seconds': 0.0}
-    la, lb = (6, 5) if tier == 'quick' else (7, 6)
+    la, lb = (5, 5) if tier == 'quick' else (7, 6)
     tasks = []
     for alpha, L in ((ALPHA_A, la), (ALPHA_B, lb)):
         firsts = [a + b for a in alpha for b in alpha]
@@ -858,11 +865,11 @@ def _seq_chunk(seqs):
 def sequence_sweep(tier, seed):
     t0 = time.time()
     rng = random.Random(seed * 1000003 + 77)
-    L = 5 if tier == 'quick' else 7
+    L = 5 if tier == 'quick' else 6
     seqs = [''.join(p) + 'T' for p in itertools.product('EDTBG', repeat=L - 1)]
     # sequences that never select a workbook decide nothing
     seqs = [s for s in seqs if 'B' in s or 'G' in s]
-    n_rand = 600 if tier == 'quick' else 10000
+    n_rand = 300 if tier == 'quick' else 6000
     extra = ['BDTEET', 'BDTETET', 'BDTEEW', 'DBTEET', 'BDTXEET', 'GTBT', 'GTDBTET', 'BTDTET', 'CTBTGT', 'DCTBTEET', 'BDWEEW', 'XBDTEET',
              'BDTGTBEET', 'DEBT', 'BDTEDET', 'BDTDEET', 'DBTECT', 'DBTEDTECT']
     for _ in range(n_rand):
